@@ -9,8 +9,8 @@ CHECKS = {
          "Every generated program (wild and conforming profiles, plus the directed family of stack slots carried around nested loops) is analysed by the real pipeline and executed on a reference RV32IM machine from random initial states; at each executed instruction every Constant/Address/entry+const register claim and every stack-slot claim (in and out) is compared with the machine state of the current activation. Silence means: held on the executions observed (counts in the evidence), not for all programs.",
          "Trusts the reference machine (written from the ISA spec), the line-based join of instructions to graph nodes, and the generator's coverage of the supported subset."),
  "C02": ("dynamic def-use chain monitor + independent least-fixed-point reference solver",
-         "(a) on executions of generated programs (including CSR read/write/set instructions and branches into functions), every register read is traced back to its dynamic definition and every executed node in between must list the register as live; inferred argument/return registers and `Unused value` warnings are checked against what executions read; (b) live_in/live_out of every node are compared with the least solution of the documented equations computed by an independent worklist solver.",
-         "Part (b) takes the analyzer's gen/kill sets and ecall table as the documented constants; part (a) models calls/ecalls as the calling convention says."),
+         "(a) on executions of generated programs (including CSR read/write/set instructions and branches into functions), every register read is traced back to its dynamic definition and every executed node in between must list the register as live; inferred argument/return registers and `Unused value` warnings are checked against what executions read; (b) live_in/live_out of every node are compared with the least solution of the documented equations computed by an independent worklist solver; (c) the constants of those equations - what each ordinary instruction reads and overwrites, and that uret reads every register - are compared with the harness's own decoding.",
+         "Part (b) takes the analyzer's gen/kill sets and ecall table as the documented constants (part (c) checks those of ordinary instructions and uret); part (a) models calls/ecalls as the calling convention says."),
  "C03": ("static edge-legality monitor + dynamic executed-transfer monitor",
          "Static: successor/predecessor sets are inverse, every edge is a fall-through, a jump to the written label or a return merge, exit ecalls have no successors (also ecalls whose exit number is inherited through a jump around another exit, and shared tails). Dynamic: every control transfer executed by the reference machine inside an activation is an edge and no executed instruction is reported unreachable.",
          "Trusts the reference machine and the node join; only executed transfers are required to be edges."),
@@ -48,7 +48,7 @@ CHECKS = {
          "Every mnemonic x operand form is parsed by the real parser and the decoded nodes are executed on the reference machine against the official expansion from boundary and random states; and, as table 4, the same boundary grid is run through the whole analysis (`li; li; op` with register, zero-register and immediate operands): every constant the analysis claims must be the RV32IM value; MathOp::operate is compared with a reference ALU on a complete 24x24 boundary grid per operator plus random pairs, in the checked (overflow-checks) and release builds.",
          "Trusts the harness's reference ALU/expansion tables (from the ISA and assembler manuals)."),
  "C10": ("repeated-execution monitor over hash-order schedules (fresh threads and separate processes)",
-         "The same file sets are linted repeatedly in fresh threads (RVParser::run and the staged route) and as separate rva processes in every output mode; all results must be identical sequences and contain no two equal items. The evidence reports how many distinct hash orders were actually seen.",
+         "The same file sets are linted repeatedly in fresh threads (RVParser::run and the staged route) and as separate rva processes in every output mode; all results must be identical sequences and contain no two equal items (also for a directed family: a never-assigned register first read behind the join of several paths). The evidence reports how many distinct hash orders were actually seen.",
          "Only the hash orders that occurred are covered."),
  "C12": ("extra-pass-run history monitor + sweep-counter hook",
          "Generated programs, trap handlers, shared tails, loop-carried stack slots, exit ecalls with inherited numbers and semantic mutants (valid programs with retargeted jumps, stack-pointer games, reserved label names): after gen_full_cfg a canonical snapshot of all facts is taken through public getters; a fixed-point loop that exceeds the sweep limit is reported as non-termination; random sequences of extra AvailableValue/EcallTermination/Liveness runs must leave snapshot and diagnostics unchanged; the same parsed program analysed twice must give the same facts; the verif-hooks sweep counters must stay under a linear bound (a sweep limit turns non-termination into an observable event).",
